@@ -12,10 +12,12 @@ import (
 	"fmt"
 	"os"
 	"path/filepath"
+	"strings"
 	"sync"
 	"testing"
 
 	pb "github.com/buchgr/bazel-remote/v2/genproto/build/bazel/remote/execution/v2"
+	"google.golang.org/genproto/googleapis/bytestream"
 	"google.golang.org/grpc/codes"
 	"google.golang.org/protobuf/proto"
 )
@@ -44,9 +46,9 @@ func TestVerifServerFailedReadThenOverlappingReads(t *testing.T) {
 	defer rec.Close(t)
 	rng := vNewRand("srvpool")
 	ctx := context.Background()
-	rec.Set("rule", "zstd storage: a blob with a damaged compressed payload is read through {BatchReadBlobs identity, GetTree, GetActionResult inlining, ByteStream.Read blobs/, http GET identity}; after each failing read 6 overlapping reads of 3 other multi-chunk blobs through ByteStream.Read blobs/, BatchReadBlobs identity and http GET identity must deliver exactly their bytes")
+	rec.Set("rule", "zstd storage: a blob with a damaged compressed payload is read through {BatchReadBlobs identity, GetTree, GetActionResult inlining, ByteStream.Read blobs/, http GET identity}, and an intact blob is read with a read_limit that is too small (blobs/ and compressed-blobs/) or by a client that leaves after the first message; after each such read 6 overlapping reads of 3 other multi-chunk blobs through ByteStream.Read blobs/, BatchReadBlobs identity and http GET identity must deliver exactly their bytes")
 	const MiB = 1 << 20
-	poisonPaths := []string{"batchRead", "getTree", "acInline", "bsRead", "httpGet"}
+	poisonPaths := []string{"batchRead", "getTree", "acInline", "bsRead", "httpGet", "bsReadLimit", "bsReadLimitZstd", "bsReadCancel"}
 	for round := 0; round < vScale(2, 8); round++ {
 		f := vNewFix(t, vFixOpts{mode: "zstd", validateAC: true})
 		// the blobs the overlapping reads ask for: several chunks each, distinct content
@@ -78,7 +80,9 @@ func TestVerifServerFailedReadThenOverlappingReads(t *testing.T) {
 					t.Fatal(err)
 				}
 			}
-			if !f.vDamage(victim) {
+			// the last three paths fail on an intact blob: a read_limit smaller than the blob, and a
+			// client that goes away after the first message
+			if !strings.HasPrefix(pp, "bsReadLimit") && pp != "bsReadCancel" && !f.vDamage(victim) {
 				rec.Count("damage-failed")
 				continue
 			}
@@ -113,6 +117,24 @@ func TestVerifServerFailedReadThenOverlappingReads(t *testing.T) {
 				if c == codes.OK && !bytes.Equal(got, victim) {
 					res = "OK-wrong-bytes"
 				}
+			case "bsReadLimit", "bsReadLimitZstd":
+				name := fmt.Sprintf("blobs/%s/%d", dg.Hash, dg.SizeBytes)
+				if pp == "bsReadLimitZstd" {
+					name = "compressed-blobs/zstd/" + name[len("blobs/"):]
+				}
+				got, c, _ := f.vBSRead(name, 0, dg.SizeBytes/3)
+				res = c.String()
+				if int64(len(got)) > dg.SizeBytes/3 && pp == "bsReadLimit" {
+					res = "OK-wrong-bytes"
+				}
+			case "bsReadCancel":
+				cctx, cancel := context.WithCancel(ctx)
+				st, err := f.bs.Read(cctx, &bytestream.ReadRequest{ResourceName: fmt.Sprintf("blobs/%s/%d", dg.Hash, dg.SizeBytes)})
+				if err == nil {
+					_, err = st.Recv()
+				}
+				cancel()
+				res = "cancelled-after-first-message:" + vGRPCCode(err)
 			case "httpGet":
 				code, body, _ := f.vHTTPDo("GET", "/cas/"+dg.Hash, nil, nil)
 				res = fmt.Sprint(code)
@@ -171,7 +193,7 @@ func TestVerifServerFailedReadThenOverlappingReads(t *testing.T) {
 			wg.Wait()
 			rec.Count(fmt.Sprintf("overlap.bad=%d", len(bad)))
 			if len(bad) > 0 {
-				rec.Violation("C07", "srvpool.overlap", fmt.Sprintf("after a failed read of a damaged blob via %s, overlapping reads of intact blobs went wrong: %v", pp, bad), map[string]interface{}{"poison": pp})
+				rec.Violation("C02,C07", "srvpool.overlap", fmt.Sprintf("after a failed read of a damaged blob via %s, overlapping reads of intact blobs went wrong: %v", pp, bad), map[string]interface{}{"poison": pp})
 			}
 			rec.Distinct(fmt.Sprintf("%s:%d", pp, round))
 		}
